@@ -84,6 +84,8 @@ pub struct Shared {
     /// number of getinfo requests still answered automatically (u32::MAX = all)
     pub auto_getinfo: u32,
     pub local_id: String,
+    /// E2E only: automatic getinfo replies are delayed by this many (real) milliseconds
+    pub getinfo_delay_ms: u64,
 }
 
 impl Shared {
@@ -152,6 +154,7 @@ async fn serve_conn(mut stream: tokio::net::UnixStream, shared: Arc<Mutex<Shared
         let id = req.get("id").cloned().unwrap_or(Value::Null);
         let method = req.get("method").and_then(|m| m.as_str()).unwrap_or("").to_string();
         let params = req.get("params").cloned().unwrap_or(Value::Null);
+        let method_is_getinfo = method == "getinfo";
         let rx = {
             let mut s = shared.lock().unwrap();
             if method == "getinfo" && s.auto_getinfo > 0 {
@@ -180,6 +183,12 @@ async fn serve_conn(mut stream: tokio::net::UnixStream, shared: Arc<Mutex<Shared
             Ok(r) => r,
             Err(_) => return, // connection dropped by the driver (transport failure)
         };
+        if method_is_getinfo {
+            let d = shared.lock().unwrap().getinfo_delay_ms;
+            if d > 0 {
+                tokio::time::sleep(Duration::from_millis(d)).await;
+            }
+        }
         let mut out = json!({"jsonrpc": "2.0", "id": id});
         if let Some(r) = reply.get("result") {
             out["result"] = r.clone();
@@ -288,6 +297,7 @@ impl World {
             t0: None,
             auto_getinfo: u32::MAX,
             local_id: local_pubkey().to_string(),
+            getinfo_delay_ms: 0,
         }));
         let n = scn.htlcs.len();
         let c = SOCK_COUNTER.fetch_add(1, std::sync::atomic::Ordering::Relaxed);
@@ -601,6 +611,7 @@ impl World {
             .iter()
             .filter(|r| !self.is_frozen(&s, r))
             .filter(|r| !self.is_held(r))
+            .filter(|r| !(self.scn.freeze_polls && r.method == "getinfo"))
             .filter(|r| match r.method.as_str() {
                 "pay" => false,
                 // held while its part is pending - unless the caller passed `timeout` and that much
@@ -921,6 +932,9 @@ impl World {
                     }
                 }
                 Step::Flush => self.flush().await,
+                Step::SyncWarning(on) => {
+                    self.shared.lock().unwrap().node.sync_warning = on;
+                }
                 Step::AnswerErr(i, code) => {
                     let a = self.answerable();
                     if !a.is_empty() {
